@@ -10,17 +10,13 @@
 // .webm/.mkv with its own reader (verif/harness/vebml) and evaluates the
 // clauses of the property over what it finds.  No hooks, public API only.
 //
-// A failure is attributed to the pinned github.com/jech/samplebuilder when a
-// stand-alone instance of that package, fed exactly the packets the recorder
-// was observed to receive (Write arguments and GetPacket results, in order),
-// shows the same defect (or never releases the frame / a keyframe before it);
-// such violations get the key "samplebuilder:<delivery class>".  The same
-// stand-alone run also tells apart, for the key only, three recorder defects
-// that show whenever the builder releases frames late: "stale-keyframe" (a
-// keyframe released after another keyframe's first packet arrived is no longer
-// recognised), "first-keyframe-released-by-closing-flush" (the file is created
-// inside close(), after the audio writer was closed, and is never finalised)
-// and "origin-moved-by-sender-report".  C20_DEBUG=<session> dumps one session.
+// judge() finds symptoms; attribute() (attribute.go) files each of them under
+// exactly one ROOT-CAUSE key, independent of delivery class and symptom, and
+// only when the cause is established with certainty for that very session
+// (pinned sample builder run alone plus an instrumented, repairable copy of it
+// in sbprobe.go; replay of the session without its sender reports); the rest is
+// "unattributed:<symptom>:<delivery class>".  C20_DEBUG=<session> dumps one
+// session, C20_DEBUG_REF=1 adds what the pinned builder released.
 package main
 
 import (
@@ -37,9 +33,6 @@ import (
 	"sync/atomic"
 	"time"
 
-	"github.com/jech/samplebuilder"
-	"github.com/pion/rtp"
-	"github.com/pion/rtp/codecs"
 	"github.com/pion/webrtc/v4"
 
 	"github.com/jech/galene/conn"
@@ -1369,45 +1362,6 @@ func (t *track) complete(f *frame) bool {
 	return true
 }
 
-// reference runs the pinned sample builder alone over the observed feed.
-func (t *track) reference() []sample {
-	var b *samplebuilder.SampleBuilder
-	switch t.codec {
-	case "opus":
-		b = samplebuilder.New(32, &codecs.OpusPacket{}, t.clock)
-	case "vp8":
-		b = samplebuilder.New(256, &codecs.VP8Packet{}, t.clock)
-	case "vp9":
-		b = samplebuilder.New(256, &codecs.VP9Packet{}, t.clock)
-	case "h264":
-		b = samplebuilder.New(256, &codecs.H264Packet{}, t.clock)
-	}
-	var out []sample
-	for fi, pi := range t.feed {
-		raw := append([]byte(nil), t.pkts[pi].raw...)
-		p := new(rtp.Packet)
-		if err := p.Unmarshal(raw); err != nil {
-			continue
-		}
-		b.Push(p)
-		for {
-			s, ts := b.PopWithTimestamp()
-			if s == nil {
-				break
-			}
-			out = append(out, sample{data: s.Data, pos: fi, ts: ts})
-		}
-	}
-	for {
-		s, ts := b.ForcePopWithTimestamp()
-		if s == nil {
-			break
-		}
-		out = append(out, sample{data: s.Data, pos: len(t.feed), ts: ts})
-	}
-	return out
-}
-
 func (s *session) replay() map[string]any {
 	return map[string]any{"session": s.p.Session, "thorough": s.p.Thorough, "params": s.p, "delivery": s.summary}
 }
@@ -2060,6 +2014,7 @@ func main() {
 	run.Assume("delivery stays inside the recorder's reorder window: displacement <= 10 packets (6 for audio) and never more than 400 ms late, withheld runs of 1..35 packets (1..4 for audio; runs may merge, always far below 256); a late start precedes the first packet by at most 20 packets (8 for audio); the server cache holds a withheld packet from the start and any other packet once it was forwarded; the buffer passed to Write is reused afterwards, as the server's writer loop does")
 	run.Assume("completeness is demanded from the first complete keyframe that starts at or after the first packet the recorder saw (audio next to video: from the first audio frame written), for every frame when nothing is unrecoverable, and otherwise only for the frames behind the last unrecoverable packet (they are buffered in the recorder when it is closed: flush)")
 	run.Assume("the harness does not sleep, so audio only starts after the video when both tracks carry sender reports from the start; without sender reports the recorder can only align tracks by arrival: the allowed audio/video origin error then includes the arrival skew the harness introduced (path delay, displacement, withheld runs) and the measured wall time of the session; blocks pushed after both tracks received a sender report must agree within max(one video frame interval, 40 ms)")
-	run.Assume("attribution to github.com/jech/samplebuilder is by running that package alone on the packets the recorder was observed to receive; it only changes the violation key, never the verdict")
+	run.Assume("H264 keyframes made of STAP-A{SPS,PPS} + IDR are only generated where no packet can be missing for good (not in gap-lost, gap-mixed, late-start): once the STAP-A is lost the IDR's first packet is a partition head that no RTP-level recorder can tell from a frame start, so 'complete frames only' and 'no frame lost' cannot both be met there")
+	run.Assume("attribution changes the violation key only, never the verdict: samplebuilder:* needs (a) the recorded track byte-identical to what a correct recorder makes of the PINNED builder's releases for the observed packets, (b) a clean track from a REPAIRED builder on the same packets, (c) the defect's trigger observed in an instrumented copy whose output equals the pinned package's, (d) symptoms coming back when only that defect is left unrepaired; sender-report-moves-origin needs the symptom to vanish when the same session is replayed against the real recorder without its sender reports")
 	run.Finish("exploration", rule)
 }
